@@ -7,6 +7,7 @@ import Driver.Chan
 import Driver.ObjCache
 import Driver.Rpc
 import Driver.File
+import Driver.Ser
 /-! `driver <model>`: one op per stdin line, one canonical result line per op on stdout. -/
 
 structure Model where
@@ -22,6 +23,7 @@ def dispatch (model : String) : Option Model :=
   | "path" => some (pureModel Driver.Path.step)
   | "iov" => some ⟨Driver.Iov.St, {}, Driver.Iov.step⟩
   | "objcache" => some ⟨Driver.ObjCache.D, {}, Driver.ObjCache.step⟩
+  | "ser" => some ⟨Driver.Ser.St, {}, Driver.Ser.step⟩
   | "file" => some ⟨Driver.File.St, {}, Driver.File.step⟩
   | "rpc" => some ⟨Driver.Rpc.D, {}, Driver.Rpc.step⟩
   | "chan" => some ⟨Driver.Chan.D, {}, Driver.Chan.step⟩
